@@ -259,6 +259,24 @@ pub enum Value {
 }
 
 impl Value {
+    /// Number of levels of the expression tree below (and including) this value, computed with a work
+    /// list: the callers use it to refuse trees that the recursive type checker and evaluator can not walk.
+    pub(crate) fn depth(&self) -> usize {
+        let mut max = 0;
+        let mut pending = vec![(self, 1usize)];
+        while let Some((v, d)) = pending.pop() {
+            max = max.max(d);
+            match v {
+                Value::OpCall(c) => {
+                    pending.push((&c.func, d + 1));
+                    pending.extend(c.args.iter().map(|a| (a, d + 1)));
+                }
+                Value::Array(a) | Value::Tuple(a) => pending.extend(a.iter().map(|a| (a, d + 1))),
+                _ => {}
+            }
+        }
+        max
+    }
     // fn unsafe_clone(&self) -> Value {
     //     unsafe { std::mem::transmute(self.clone()) }
     // }
@@ -522,6 +540,31 @@ impl std::fmt::Display for Call {
                 .collect::<Vec<_>>()
                 .join(",")
         )
+    }
+}
+
+// An operator chain is a left-deep tree, one level per operator: dropping it with the compiler's recursive
+// glue needs stack in proportion to the length of the expression. Take the tree apart with a work list.
+impl Drop for Call {
+    fn drop(&mut self) {
+        let mut pending: Vec<Value> = std::mem::take(&mut self.args);
+        pending.push(std::mem::replace(&mut self.func, Value::Boolean(false)));
+        while let Some(v) = pending.pop() {
+            match v {
+                Value::OpCall(c) => {
+                    if let Ok(mut c) = Arc::try_unwrap(c) {
+                        pending.append(&mut c.args);
+                        pending.push(std::mem::replace(&mut c.func, Value::Boolean(false)));
+                    }
+                }
+                Value::Array(a) | Value::Tuple(a) => {
+                    if let Ok(mut a) = Arc::try_unwrap(a) {
+                        pending.append(&mut a);
+                    }
+                }
+                _ => {}
+            }
+        }
     }
 }
 
